@@ -415,6 +415,9 @@ def run_pipeline(
         # The detector should be reset before exposure
         detector.empty()
 
+        # Remove the intermediate results (debug mode) of a previous run
+        detector._intermediate = None
+
         if progressbar:
             pbar = tqdm(
                 total=detector.readout_properties.num_steps,
